@@ -1,9 +1,12 @@
 #!/bin/bash
-# usage: tools/try_mutant.sh <worktree> <diff> <prop> [<prop>...]   -- runs checks against a scratch worktree with the diff applied
-wt=$1; diff=$2; shift 2
-cd $wt && git checkout -q -- . && git apply $diff || exit 3
+# usage: tools/try_mutant.sh <dir containing the diff> <diff file name> <prop> [<prop>...]
+# applies the diff to a FRESH scratch worktree of /repo's current HEAD and runs the checks against it (VERIF_REPO)
+src=$1; diff=$2; shift 2
+wt=/tmp/muttry.$$
+git -C /repo worktree add -q --detach $wt HEAD || exit 3
+( cd $wt && git apply $src/$diff ) || { echo "patch does not apply"; git -C /repo worktree remove --force $wt; exit 3; }
 cd /verif
 for p in "$@"; do
-  VERIF_REPO=$wt timeout 900 /venv/bin/python -m harness.check $p 2>&1 | grep -v "WARNING\|proof leg\|no-failing-input-found" | grep "VIOLATION\|KNOWN\|failing input\|quick seed\|correspondence leg\|INTERNAL" | cut -c1-330 | head -8
+  VERIF_REPO=$wt timeout 1800 /venv/bin/python -m harness.check $p 2>&1 | grep -v "WARNING\|proof leg" | grep "VIOLATION\|KNOWN\|failing input\|quick seed\|correspondence leg\|INTERNAL" | cut -c1-330 | head -8
 done
-cd $wt && git checkout -q -- .
+git -C /repo worktree remove --force $wt
